@@ -135,11 +135,11 @@ type lineSpec struct {
 }
 
 var (
-	coreAlpha  = []string{"1", "0", "2", "", "x", "01", "+1", "1.0", "99999999999999999999", "1\xff"}
-	verAlpha   = []string{"1", "7", "", "x", "-1", "01", "99999999999999999999", "2", "0", "00", "3", "\xff1"}
-	netAlpha   = []string{"tcp", "unix", "", "udp", "TCP", "tcp4", "unixgram", "t\xffcp"}
-	addrAlpha  = []string{"127.0.0.1:1234", ":1234", "/tmp/s.sock", "", "256.0.0.1:1", "127.0.0.1:99999", "[::1]:80", "127.0.0.1", "127.0.0.1:12\xff34"}
-	protoAlpha = []string{"netrpc", "\x00", "", "grpc", "GRPC", "bogus", "net\xffrpc", "\xfegrpc"}
+	coreAlpha  = []string{"1", "0", "2", "", "x", "01", "+1", "1.0", "99999999999999999999", "1{ff}"}
+	verAlpha   = []string{"1", "7", "", "x", "-1", "01", "99999999999999999999", "2", "0", "00", "3", "{ff}1"}
+	netAlpha   = []string{"tcp", "unix", "", "udp", "TCP", "tcp4", "unixgram", "t{ff}cp"}
+	addrAlpha  = []string{"127.0.0.1:1234", ":1234", "/tmp/s.sock", "", "256.0.0.1:1", "127.0.0.1:99999", "[::1]:80", "127.0.0.1", "127.0.0.1:12{ff}34"}
+	protoAlpha = []string{"netrpc", "\x00", "", "grpc", "GRPC", "bogus", "net{ff}rpc", "{fe}grpc"}
 	certAlpha  = []string{"\x00", "", "0123456789", strings.Repeat("!", 60), strings.Repeat("QUJD", 15), "REAL", strings.Repeat("\r", 60), "REAL2", "REALJUNK", "REALCR"}
 	muxAlpha   = []string{"\x00", "", "true", "false", "1", "yes"}
 	shapeAlpha = []string{"LF", "CRLF", "blanks", "extra8", "trunc3", "trunc2", "trunc1", "trunc0", "nonl-eof", "nonl-silence", "emptyfirst", "long70k", "exit-before", "silence", "closed-alive", "nonl-closed-alive", "tail6k"}
@@ -181,6 +181,10 @@ func (l lineSpec) fields() []string {
 			v = realCertB64[:40] + "\r" + realCertB64[40:80] + "\r\r" + realCertB64[80:]
 		}
 		fs = append(fs, v)
+	}
+	for i := range fs {
+		// "{ff}" / "{fe}" stand for single bytes that are not valid UTF-8 (instance parameters travel as JSON)
+		fs[i] = strings.ReplaceAll(strings.ReplaceAll(fs[i], "{ff}", "\xff"), "{fe}", "\xfe")
 	}
 	return fs
 }
